@@ -5,6 +5,8 @@ from __future__ import annotations
 import ast
 
 CONSTRUCTS = {
+    # methods whose parameters are positional-only, self / cls unused
+    "posonly_methods": 'class Shape:\n    def area(self, /):\n        return 1\n\n    def scale(self, /, *, factor=2):\n        return factor\n\n    @classmethod\n    def make(cls, /):\n        return 3\n\n    def both(self, other, /, extra=None, *rest, **more):\n        return other\n\n\nprint(Shape().area(), Shape().scale(factor=3), Shape.make(), Shape().both(4))\n',
     "masked_literals_with_simple_escapes": 's = "name\tvalue\\n"\nt = \'\'\'two\\tlines \\\\ here\\n\nsecond\tline\'\'\'\nprint(repr(s), repr(t))\n',
     # literals that are set aside while the text is laid out (tabs, several lines) and also contain backslash escapes, group-reference look-alikes, nested f-strings
     "masked_literals_with_escapes": 's = "name\tvalue\\n"\nt = \'\'\'multi\\d line \\\\ \\n\nsecond\tline \\1 \\g<0>\'\'\'\nv = 1\nu = f\'\'\'head\t   \n\n\n\n{f"{v}"}  tail\t{v}\'\'\'\nw = f"{f\'{v}\'}\t{v!r:>{v}}"\nprint(repr(s), repr(t), repr(u), repr(w))\n',
